@@ -352,6 +352,16 @@ def c02(run, replay=None):
     for (k, v, c), o in zip(envp, outs):
         if o["rc"] != 0 or not o["stdout"].startswith(v + "\n"):
             run.violation("env-inherit: child command does not see -e %s=%s: %r" % (k, v, o), dict(desc=c["desc"], implementation=o))
+    # K55: a task var that reads an ATTRIBUTE of the loop item (`p: "{{ item.path }}"` over a list of mappings): the loop list is
+    # rendered with the task vars extended over item == "", where `"".path` is undefined - the task fails before its first item
+    k55 = ("#!/usr/bin/env rash\n- debug:\n    msg: \"p={{ p }}\"\n  vars:\n    p: \"{{ item.path }}\"\n  loop:\n    - {path: /a}\n    - {path: /b}\n- debug:\n    msg: after\n")
+    ko = E.run_impls([dict(files={"main.rh": dict(raw=k55)})])[0]
+    if ko["rc"] == 0 and [l for l in ko["stdout"].split("\n") if l] == ["p=/a", "p=/b", "after"]:
+        pass
+    elif ko["rc"] != 0 and "p=" not in ko["stdout"]:
+        run.known("K55-task-vars-reading-item-attributes", "")
+    else:
+        run.violation("a task var reading an attribute of the loop item: unexpected behaviour rc=%r stdout=%r" % (ko["rc"], ko["stdout"]), dict(script=k55, observed=ko))
     # `name` is a template like the others: it sees what earlier tasks of the same file wrote (default output: TASK [path:name]);
     # (a name that uses the task's own vars or `item` silently falls back to the module name: not judged)
     import subprocess
